@@ -84,7 +84,7 @@ def rand_da(rng):
 def rand_keysel(rng, d):
     """present / absent / mixed key selections, possibly with repeats"""
     n = rng.choice([0, 1, 1, 2, 3, 4])
-    pres, absn = list(d), [k for k in KEYS + ['zz'] if k not in d]
+    pres, absn = list(d), [k for k in KEYS + ['zz'] if k not in d] or ['zz2']
     mode = rng.choice(['present', 'absent', 'mixed', 'mixed'])
     out = []
     for _ in range(n):
@@ -124,6 +124,7 @@ def gen_da_history(rng):
     cls, d = rand_da(rng)
     lines = ['(c16 h.new %s)' % encd(cls, d)]
     shadow = [dict(d)]
+    classes = [cls]
     for _ in range(rng.choice([3, 5, 8, 12])):
         h = rng.randrange(len(shadow))
         d = shadow[h]
@@ -135,6 +136,7 @@ def gen_da_history(rng):
             cls2, d2 = rand_da(rng)
             lines.append('(c16 h.new %s)' % encd(cls2, d2))
             shadow.append(dict(d2))
+            classes.append(cls2)
         elif op == 'copy':
             lines.append('(c16 h.copy %d)' % h)
             shadow.append(dict(d))
@@ -150,7 +152,12 @@ def gen_da_history(rng):
             lines.append('(c16 h.add %d %s)' % (h, enc(o)))
             shadow.append({**d, **o})
         elif op == 'addh':
-            g = rng.randrange(len(shadow))
+            # Dict.__add__ is tree_update (C15), for which only exact dict / Dict / dictattr instances are mappings: Dict + an instance
+            # of any other dict subclass raises ValueError('node item too short').  Not generated (see docs/notes/C16.md).
+            gs = [g for g in range(len(shadow)) if not (classes[h] == 1 and classes[g] == 3)]
+            if not gs:
+                continue
+            g = rng.choice(gs)
             lines.append('(c16 h.addh %d %d)' % (h, g))
             shadow.append({**d, **shadow[g]})
         elif op == 'getl':
@@ -176,6 +183,7 @@ def gen_da_history(rng):
             lines.append('(c16 h.gett %d %s)' % (h, enc(tuple(ks if len(ks) != 1 else ks + ks))))
         else:
             lines.append('(c16 h.keys %d)' % h)
+        classes += [classes[h]] * (len(shadow) - len(classes))          # an operator's result has the receiver's class
     lines.append('(c16 h.dump)')
     return dict(tag='dictattr-history', lines=lines)
 
@@ -561,10 +569,17 @@ def laws(rng, tier, ctx):
         o = {k: rng.choice(VALS) for k in rng.sample(KEYS, rng.choice([0, 1, 2, 3]))}
         case = dict(tag='law-dictattr', lines=['(c16 d.sub %s %s)' % (encd(cls_n, d0), enc(ks)), '(c16 d.and %s %s)' % (encd(cls_n, d0), enc(ks)),
                                                '(c16 d.add %s %s)' % (encd(cls_n, d0), enc(o))])
-        checks = [('-', d - ks, {k: v for k, v in d0.items() if k not in ks}), ('&', d & ks, {k: v for k, v in d0.items() if k in ks}),
-                  ('+', d + o, {**d0, **o}), ('|', d | o, {**d0, **o})]
+        ops = [('-', lambda x: x - ks, {k: v for k, v in d0.items() if k not in ks}), ('&', lambda x: x & ks, {k: v for k, v in d0.items() if k in ks}),
+               ('+', lambda x: x + o, {**d0, **o}), ('|', lambda x: x | o, {**d0, **o})]
         if all(k in d0 for k in ks):
-            checks.append(('[list]', d[ks], {k: d0[k] for k in ks}))
+            ops.append(('[list]', lambda x: x[ks], {k: d0[k] for k in ks}))
+        checks = []
+        for name, f, want in ops:
+            x = cls(d0)                      # a fresh operand per operator: an operator that writes its operand cannot derail the next law
+            checks.append((name, f(x), want))
+            count += 1
+            if dict(x) != d0 or list(x) != list(d0):
+                yield Finding('violation', case, 'dictattr operand modified by %s' % name)
         for name, got, want in checks:
             count += 1
             if type(got) is not cls:
@@ -572,9 +587,10 @@ def laws(rng, tier, ctx):
             elif dict(got) != want:
                 yield Finding('violation', case, 'dictattr %s = %s, expected %s' % (name, enc(dict(got)), enc(want)))
         count += 2
-        if list((d - ks).keys()) != list(d.keys() - ks):
+        x = cls(d0)
+        if list((x - ks).keys()) != list(d.keys() - ks):
             yield Finding('violation', case, '(d - k).keys() != d.keys() - k')
-        if dict(d) != d0 or list(d) != list(d0):
+        if dict(x) != d0 or list(x) != list(d0) or dict(d) != d0 or list(d) != list(d0):
             yield Finding('violation', case, 'dictattr operand modified')
         if ks and all(k in d0 for k in ks) and len(ks) > 1:
             count += 1
